@@ -191,6 +191,23 @@ def impose_order_grounded(op, seed):
         op.problem_objects = dict(items)
 
 
+def make_world(task) -> lib.World:
+    """the library-side domain: the task's text, optionally passed through a library transformation first
+    (the oracle always reads the original text)"""
+    tr = task.get("lib_transform")
+    if tr is None:
+        return lib.World(task["domain_text"], task["objects"])
+    dom = lib.parse_domain(task["domain_text"])
+    if tr == "export_reparse":
+        from pddl_plus_parser.exporters import DomainExporter
+        dom = lib.parse_domain(DomainExporter().extract_domain(dom))
+    elif tr == "change_signature":
+        dom.actions[task["action"]].change_signature(dict(task["renaming"]))
+    else:
+        raise ValueError(tr)
+    return lib.World(task["domain_text"], task["objects"], domain=dom)
+
+
 def make_operator(world: lib.World, task):
     Operator = lib._models().Operator
 
@@ -248,7 +265,7 @@ def replay_concrete(task, atoms: Dict[str, bool], fl_float: Dict[str, float]):
     """Run the real library on a concrete state; return observed behaviour and the oracle's
     exact expectation for the same doubles."""
     prep = Prepared(task)
-    world = lib.World(task["domain_text"], task["objects"])
+    world = make_world(task)
     state, keys = concrete_state(world, prep, atoms, fl_float)
     fl_exact = {f: Fraction(v) for f, v in fl_float.items()}
     cs = prep.cs
@@ -347,7 +364,7 @@ def run_task(task) -> dict:
                 return ("vacuous", None, None, None)
             world = shared_world[0]
             if world is None or task.get("fresh_world_per_path"):
-                world = lib.World(task["domain_text"], task["objects"])
+                world = make_world(task)
                 shared_world[0] = world
             state, keys = build_state(ctx, world, prep)
             op = make_operator(world, task)
